@@ -27,6 +27,7 @@ type Region struct {
 	Via     []viaTag
 	Elem    bool // the region is one whole element of a slice (s[i])
 	Ghost   string // ghost integer <name> of the object Ref
+	Object  bool   // every cell of the object Ref (object(x))
 }
 
 // containsWrite is the condition under which a recorded write lies inside
@@ -43,6 +44,12 @@ func (r Region) containsWrite(w writeRec) string {
 	}
 	if r.Map != nil {
 		return "false"
+	}
+	if r.Object {
+		if w.Kind == "all" || w.Kind == "map" {
+			return "false"
+		}
+		return eq(w.Ref, r.Ref)
 	}
 	if w.Class != "" && !hasClass(r.Classes, w.Class) {
 		return "false"
@@ -112,6 +119,12 @@ func (f *FnEnc) writeObligations(rs []Region, key string) {
 						alts = append(alts, c)
 					}
 				}
+			} else {
+				for _, r := range rs {
+					if r.Object {
+						alts = append(alts, eq(w.Ref, r.Ref))
+					}
+				}
 			}
 			allowed = or(alts...)
 		}
@@ -131,6 +144,9 @@ func (f *FnEnc) writeObligations(rs []Region, key string) {
 }
 
 func (r Region) contains(ref, idx, sub string) string {
+	if r.Object {
+		return eq(ref, r.Ref)
+	}
 	cs := []string{eq(ref, r.Ref)}
 	if r.IdxHi == "" {
 		cs = append(cs, eq(idx, r.IdxLo))
@@ -190,6 +206,14 @@ func (f *FnEnc) region(se *SpecEnv, m SExpr) Region {
 		}
 		return Region{Ref: x.L[0], IdxLo: x.L[1], IdxHi: "(bvadd " + x.L[1] + " " + x.L[4] + ")", Classes: f.l.classesOf(u.Elem()), Text: text}
 	}
+	if c, ok := m.(SCall); ok && c.Fun == "object" {
+		x := se.eval(c.Args[0], nil)
+		ref := x.L[0]
+		if _, isIface := x.T.Underlying().(*types.Interface); isIface {
+			ref = x.L[1]
+		}
+		return Region{Ref: ref, Object: true, Classes: allClasses, Text: text}
+	}
 	if c, ok := m.(SCall); ok && c.Fun == "ghostint" {
 		lit := c.Args[0].(SLit)
 		x := se.eval(c.Args[1], nil)
@@ -239,6 +263,10 @@ func (f *FnEnc) havocRegions(st *State, rs []Region) {
 		}
 		if r.Map != nil {
 			f.havocMapAt(st, r.Map, r.Ref)
+			continue
+		}
+		if r.Object {
+			f.havocObject(st, r.Ref, allClasses)
 			continue
 		}
 		if r.IdxHi == "" && r.SubHi != "" && r.NCells > 0 {
@@ -309,11 +337,77 @@ func (f *FnEnc) havocMapAt(st *State, mt *types.Map, ref string) {
 
 // havocFresh makes the contents of every object allocated by this function
 // (ref >= alloc0) arbitrary and keeps all other objects.
-func (f *FnEnc) havocFresh(st *State) {
+func (f *FnEnc) havocFresh(st *State) { f.havocFreshSince(st, f.st0.alloc) }
+
+// loopWriteObligations: every write in the body of a loop with an explicit
+// loopmodifies clause stays inside that clause or touches an object allocated
+// after the loop was entered (this is what the havoc at the loop head assumes).
+func (f *FnEnc) loopWriteObligations(key string) {
+	for _, lf := range f.loopFrames {
+		n := 0
+		seen := map[string]bool{}
+		for k, w := range f.writes {
+			b, _ := w.Block.(*ssa.BasicBlock)
+			fr, _ := w.Frame.(*Frame)
+			if b == nil || !(fr == lf.fr && lf.li.body[b]) && !frameInside(fr, lf.fr, lf.li) {
+				continue
+			}
+			var allowed string
+			if w.Kind == "all" {
+				allowed = "false"
+			} else {
+				alts := []string{"(>= " + w.Ref + " " + lf.alloc + ")"}
+				switch w.Kind {
+				case "subrange":
+					alts = append(alts, eq(w.Sub, w.SubHi))
+				case "idxrange":
+					alts = append(alts, eq(w.Idx, w.IdxHi))
+				}
+				for _, r := range lf.rs {
+					switch {
+					case w.Kind == "map":
+						if r.Map != nil {
+							alts = append(alts, eq(w.Ref, r.Ref))
+						}
+					case w.Kind == "object":
+						if r.Object {
+							alts = append(alts, eq(w.Ref, r.Ref))
+						}
+					default:
+						if c := r.containsWrite(w); c != "false" {
+							alts = append(alts, c)
+						}
+					}
+				}
+				allowed = or(alts...)
+			}
+			sig := w.Guard + "|" + allowed
+			if seen[sig] {
+				continue
+			}
+			seen[sig] = true
+			n++
+			f.c.oblige(Item{Guard: w.Guard, Formula: allowed, Name: fmt.Sprintf("%s/loopframe:loop%d:write#%d", key, lf.li.ord, n), Class: "frame", Pos: f.pos(f.writePos[k]),
+				Text: "heap write in the loop body stays inside the loopmodifies clause or touches an object allocated in the loop"})
+		}
+	}
+}
+
+// frameInside: fr is an inlined activation whose call site lies in the loop.
+func frameInside(fr, loopFr *Frame, li *loopInfo) bool {
+	for x := fr; x != nil && x != loopFr; x = x.parent {
+		if x.parent == loopFr && x.callBlock != nil && li.body[x.callBlock] {
+			return true
+		}
+	}
+	return false
+}
+
+func (f *FnEnc) havocFreshSince(st *State, since string) {
 	for _, so := range allClasses {
 		h := f.heap(st, so)
-		nh := f.c.fresh("Hlp"+className(so), heapSort(so))
-		f.c.assume("true", "(forall ((r!q Int)) (! (=> (< r!q "+f.st0.alloc+") (= (select "+nh+" r!q) (select "+h+" r!q))) :pattern ((select "+nh+" r!q))))")
+		fr := f.c.fresh("Hlf"+className(so), heapSort(so))
+		nh := f.c.lambdaRef(midSort(so), "(ite (< r!l "+since+") (select "+h+" r!l) (select "+fr+" r!l))")
 		setHeap(st, so, nh)
 	}
 	for _, k := range sortedHeapKeys(st.heaps) {
@@ -321,11 +415,13 @@ func (f *FnEnc) havocFresh(st *State) {
 			continue
 		}
 		h := st.heaps[k]
+		hs := f.heapSortOf(k)
+		// hs is "(Array Int X)": the element sort X
+		elem := strings.TrimSuffix(strings.TrimPrefix(hs, "(Array Int "), ")")
 		f.c.n++
-		nh := fmt.Sprintf("Mlp!%d", f.c.n)
-		f.c.raw(fmt.Sprintf("(declare-const %s %s)", nh, f.heapSortOf(k)))
-		f.c.assume("true", "(forall ((r!q Int)) (! (=> (< r!q "+f.st0.alloc+") (= (select "+nh+" r!q) (select "+h+" r!q))) :pattern ((select "+nh+" r!q))))")
-		st.heaps[k] = nh
+		frn := fmt.Sprintf("Mlf!%d", f.c.n)
+		f.c.raw(fmt.Sprintf("(declare-const %s %s)", frn, hs))
+		st.heaps[k] = f.c.lambdaRef(elem, "(ite (< r!l "+since+") (select "+h+" r!l) (select "+frn+" r!l))")
 	}
 	f.epoch++
 	st.epoch = f.epoch
@@ -524,7 +620,13 @@ func (f *FnEnc) havocLoop(fr *Frame, li *loopInfo, ls *LoopSpec, st *State) *Sta
 		case ls.HasMod:
 			se := f.specEnvFor(fr, st, "true")
 			rs := f.regions(se, ls.Modifies)
+			f.loopFrames = append(f.loopFrames, loopFrame{fr: fr, li: li, rs: rs, alloc: st.alloc})
+			// (the havoc itself is not a write of the body)
+			saved := f.onWrite
+			f.onWrite = nil
 			f.havocRegions(st, rs)
+			f.havocFreshSince(st, st.alloc)
+			f.onWrite = saved
 		case f.con != nil && f.con.HasMod && !f.con.ModAll && f.entryRegions != nil:
 			// every write of the function is checked (write by write) to
 			// stay inside the modifies clause or to touch objects allocated
@@ -644,6 +746,7 @@ func (f *FnEnc) setResult(fr *Frame, in ssa.Value, v Val) {
 }
 
 func (f *FnEnc) callWith(fr *Frame, st *State, R string, in ssa.Value, cc *ssa.CallCommon, args []Val, fnv *Val, pos token.Pos) {
+	f.curCallPos = cc.Pos()
 	if b, ok := cc.Value.(*ssa.Builtin); ok && !cc.IsInvoke() {
 		v, _ := f.builtin(fr, st, R, in, b, args, cc)
 		if in != nil && len(v.L) > 0 {
@@ -727,7 +830,22 @@ func (f *FnEnc) callWith(fr *Frame, st *State, R string, in ssa.Value, cc *ssa.C
 	f.unknownCall(fr, st, R, in, rt, callee.String(), args, pos)
 }
 
+// nextCall numbers the call sites of a callee.  In the function under
+// contract the ordinal is the position of the call among the calls of that
+// name in SOURCE order (stable under reordering of basic blocks); calls
+// inside inlined closures are numbered in encounter order under the name
+// "<closure>/<callee>".
 func (f *FnEnc) nextCall(name string) int {
+	if f.curFrame != nil && f.curFrame != f.top {
+		name = f.curFrame.fn.Name() + "/" + name
+	} else if ord, ok := f.srcOrd[f.curCallPos]; ok && f.curCallPos.IsValid() {
+		f.callOrd[name] = ord
+		f.lastCall = fmt.Sprintf("%s#%d", name, ord)
+		if f.eng.traceCalls {
+			fmt.Printf("  call %-40s at line %d\n", f.lastCall, f.pos(f.curCallPos).Line)
+		}
+		return ord
+	}
 	f.callOrd[name]++
 	f.lastCall = fmt.Sprintf("%s#%d", name, f.callOrd[name])
 	if f.eng.traceCalls && f.curFrame == f.top {
@@ -810,13 +928,14 @@ func (f *FnEnc) unknownCall(fr *Frame, st *State, R string, in ssa.Value, rt typ
 // inline encodes the body of callee at the call site.
 func (f *FnEnc) inline(fr *Frame, st *State, R string, callee *ssa.Function, args []Val, bindings []Val, rt types.Type) Val {
 	nf := f.newFrame(callee, fr)
+	nf.callBlock = f.curBlock
 	nf.freeVars = bindings
 	for i, p := range callee.Params {
 		nf.vals[p] = args[i]
 	}
-	savedGuard := f.curGuard
+	savedGuard, savedBlock := f.curGuard, f.curBlock
 	rets := f.encodeBody(nf, st.clone(), R)
-	f.curGuard = savedGuard
+	f.curGuard, f.curBlock = savedGuard, savedBlock
 	if len(rets) == 0 {
 		// never returns (always panics)
 		f.c.assume(R, "false")
@@ -940,6 +1059,9 @@ func (f *FnEnc) applyContract(fr *Frame, st *State, R string, con *Contract, nam
 		se.results = splitResults(f, res, resTuple)
 		se.resName = resultNames(f.eng, calleeKey)
 		for _, en := range con.Ensures {
+			if en.Internal {
+				continue
+			}
 			f.c.assume(R, f.evalClause(se, en))
 		}
 	}
